@@ -9,7 +9,7 @@ and the geometric operations are abstract (`FrameOps`): the theorems hold for ev
 
 Transcribed from mdtraj/core/trajectory.py (after the two `fix:` commits for slice and atom_slice):
 `slice`, `__getitem__`, `join`, `stack`, `atom_slice`, `center_coordinates`, `superpose`, the `xyz`,
-`time`, `unitcell_*` setters.  Core Lean only.
+`time`, `unitcell_*` setters, and the in-place edit of the coordinate array followed by its assignment (`assignSame`).  Core Lean only.
 -/
 namespace MdVerif.TrajModel
 
@@ -106,6 +106,7 @@ inductive Op (F : Type) where
   | centerW (i : Nat)
   | superpose (i ref : Nat)
   | setXyz (i : Nat) (fs : List F)
+  | assignSame (i : Nat) (fs : List F)   -- `x = t.xyz; x[...] = fs; t.xyz = x`, also `t.xyz += c`: the array the trajectory holds is edited in place, then assigned
   | setTime (i : Nat) (ts : List Int)
   | setCell (i : Nat) (c : Option (List Int))
 
@@ -115,6 +116,11 @@ def addTraj (w : World F T) (heap : List F) (t : Traj T) : World F T := { heap :
 /-- write `g f` at every address in `rows` -/
 def mapAt (g : F → F) (heap : List F) (rows : List Nat) : List F :=
   rows.foldl (fun h a => match h[a]? with | some f => h.set a (g f) | none => h) heap
+
+/-- write `fs` at the addresses `rows`, position by position -/
+def writeAt (heap : List F) : List Nat → List F → List F
+  | a :: rows, f :: fs => writeAt (heap.set a f) rows fs
+  | _, _ => heap
 
 def step (ops : FrameOps F T) (w : World F T) : Op F → World F T
   | .getitem i k =>
@@ -194,6 +200,14 @@ def step (ops : FrameOps F T) (w : World F T) : Op F → World F T
       if fs.length = t.rows.length then
         let (heap', rows') := alloc w.heap fs
         { heap := heap', trajs := w.trajs.set i { t with rows := rows', traces := none } }
+      else w
+  | .assignSame i fs =>
+    match w.trajs[i]? with
+    | none => w
+    | some t =>
+      if fs.length = t.rows.length then
+        -- the storage is overwritten where it is (every trajectory that shares it sees the new values); the setter drops the cache of `i` only
+        { heap := writeAt w.heap t.rows fs, trajs := w.trajs.set i { t with traces := none } }
       else w
   | .setTime i ts =>
     match w.trajs[i]? with
